@@ -224,7 +224,9 @@ def handle (s : St) (line : String) : St :=
       | some sr =>
         let expectErr := (kind == "eh" && (sortedHeads sr.log).length != 1) || (kind == "mh" && sr.log.heads.length == 0)
           || (kind == "ent" && sr.log.heads.length == 0 && res == "panic")
-        if expectErr then s.count "cmp:load.refused" else s.diff "load" "ok" res
+        if expectErr then s.count "cmp:load.refused" else
+          -- C09/C10: what a replica publishes can be loaded back (the refusals above are the only ones)
+          (s.diff "load" "ok" res).spec (if toInt! n > -1 then "C10" else "C09") "loadSucceeds" false s!"{kind} of replica {src} (limit {n}): {res}"
     else
     match s.rep? src.toNat! with
     | none => s.diff "load-unknown-src" src ""
@@ -394,6 +396,9 @@ def handle (s : St) (line : String) : St :=
       let s := if toString m == has then s else s.diff "has" (toString m) has
       let s := if toString m == ok then s else s.diff "get" (toString m) ok
       s.spec "C05" "retrievedIdentical" (same != "differs") s!"replica {r} entry {a}"
+  | ["LP", n, got] =>
+    -- a loader wrote through the caller's limit pointer: every later load with that variable is wrong
+    s.spec "C10" "limitUntouched" false s!"limit variable {n} now holds {got}"
   | "EX" :: a :: whatL =>
     let what := " ".intercalate whatL
     -- an entry object read back from the store (or copied) whose links or clock differ from the entry
